@@ -4,6 +4,7 @@
 -/
 import OlVerif.Gen.Dispatch
 import OlVerif.Lower.Stmt
+import OlVerif.Lower.Binder
 
 namespace OlVerif.C09
 
@@ -28,6 +29,18 @@ theorem templates_prefixed : ∀ t ∈ reservedTemplates, t.2.startsWith "__ol_"
 
 /-- the supply hands out a new number each time (the model of `unique_id` is injective) -/
 theorem supply_advances (s : Supply) (p : String) : (s.fresh p).2.next = s.next + 1 := rfl
+
+/-- **Two helper names of one conversion never coincide**: names handed out at different counter
+    values differ, whatever their purposes (the supply is injective; `fresh_inj` decodes the
+    counter back from the name) -/
+theorem helper_names_distinct (s t : Supply) (p q : String) (h : s.next ≠ t.next) :
+    (s.fresh p).1 ≠ (t.fresh q).1 :=
+  fun he => h (fresh_inj s t p q he)
+
+/-- every name the supply hands out starts with the reserved prefix, whatever the purpose -/
+theorem helper_names_prefixed (s : Supply) (p : String) : (s.fresh p).1.toList.take 5 = "__ol_".toList := by
+  rw [fresh_eq]
+  simp [String.toList_append]
 
 /-- the comprehension-local helper variables of while loops and class loaders are reserved names -/
 theorem loop_helpers_reserved :
